@@ -654,6 +654,17 @@ def _doubling_any():
     return doubling_any_unit
 
 
+def _search_mode_units():
+    """Non-instruction lines count towards the 50-line threshold that selects the multi-process LCD search: inserting them can
+    switch the search mode, so 'the two modes compute the same set' (verified for C16) is part of this check's closure."""
+    from . import c16
+    out = []
+    for u in c16.units("quick"):
+        if any(k in u.id for k in ("/partition", "/_extend_path", "search-call-agreement", "order-insensitive-postprocessing")):
+            out.append(Unit(u.id.replace("C16/", "C11/search-mode-independence/"), u.fn, u.label, u.functions, timeout=u.timeout))
+    return out
+
+
 def _node_by_lineno():
     from .c16 import node_by_lineno_unit
     return node_by_lineno_unit
@@ -672,6 +683,7 @@ def units(tier):
         Unit("C11/line-numbers-are-only-labels/LCD-doubling(symbolic line numbers)", _doubling(), "Pb", [("osaca/semantics/kernel_dg.py", "KernelDG.check_for_loopcarried_dep")]),
         Unit("C11/line-numbers-are-only-labels/LCD-doubling(any kernel length, arbitrary positive line numbers)", _doubling_any(), "P", [("osaca/semantics/kernel_dg.py", "KernelDG.check_for_loopcarried_dep")]),
         Unit("C11/line-numbers-are-only-labels/_get_node_by_lineno", _node_by_lineno(), "P", [("osaca/semantics/kernel_dg.py", "KernelDG._get_node_by_lineno")]),
+        *_search_mode_units(),
         Unit("C11/get_line_range(any number of items)", line_range_unit, "P", [(OS, "get_line_range")]),
         Unit("C11/inspect/kernel-selection(any file length)", inspect_selection_unit, "P", [(OS, "inspect"), (OS, "get_line_range")]),
         bounded_unit("C11/selection-and-transparency-end-to-end", "c11_select", [(OS, "inspect"), (OS, "get_line_range"), (MU, "reduce_to_section"),
